@@ -10,6 +10,7 @@ import (
 	"sort"
 	"strings"
 	"sync"
+	"sync/atomic"
 	"time"
 
 	"github.com/spf13/afero"
@@ -307,35 +308,65 @@ func (r *recFs) leaked() []string {
 // the connections at exactly the points where one of them is between two file-system calls - the window in
 // which state shared by mistake (a pooled scratch buffer still referenced, a package-level variable) is
 // overwritten by somebody else.
-type yieldFs struct{ afero.Fs }
+type yieldFs struct {
+	afero.Fs
+	// between: what "another connection" does between any two file-system calls of this one - run inline, at
+	// every call (systematic interleaving at the yield points instead of waiting for the scheduler to produce it)
+	between *func()
+}
 
-type yieldFile struct{ afero.File }
+type yieldFile struct {
+	afero.File
+	between *func()
+}
+
+var betweenBusy sync.Mutex
+var betweenCalls atomic.Int64
+
+func runBetween(b *func()) {
+	if b == nil || *b == nil {
+		runtime.Gosched()
+		return
+	}
+	// (no yield here: the other connection's action runs inline and to completion, also its own file-system calls)
+	if !betweenBusy.TryLock() {
+		return
+	}
+	defer betweenBusy.Unlock()
+	betweenCalls.Add(1)
+	(*b)()
+}
 
 func (s yieldFs) Open(name string) (afero.File, error) {
-	runtime.Gosched()
+	runBetween(s.between)
 	f, err := s.Fs.Open(name)
 	if err != nil {
 		return nil, err
 	}
-	return yieldFile{f}, nil
+	return yieldFile{f, s.between}, nil
 }
 func (s yieldFs) OpenFile(name string, flag int, perm os.FileMode) (afero.File, error) {
-	runtime.Gosched()
+	runBetween(s.between)
 	f, err := s.Fs.OpenFile(name, flag, perm)
 	if err != nil {
 		return nil, err
 	}
-	return yieldFile{f}, nil
+	return yieldFile{f, s.between}, nil
 }
-func (s yieldFs) Stat(name string) (os.FileInfo, error) { runtime.Gosched(); return s.Fs.Stat(name) }
-func (f yieldFile) Read(p []byte) (int, error)          { runtime.Gosched(); return f.File.Read(p) }
+func (s yieldFs) Stat(name string) (os.FileInfo, error) {
+	runBetween(s.between)
+	return s.Fs.Stat(name)
+}
+func (f yieldFile) Read(p []byte) (int, error) { runBetween(f.between); return f.File.Read(p) }
 func (f yieldFile) ReadAt(p []byte, off int64) (int, error) {
+	// (no inline interleaving at positional reads: the other connection's open would then always find the
+	// pools empty and get fresh objects - the interesting interleavings are those AFTER something was put back)
 	runtime.Gosched()
 	return f.File.ReadAt(p, off)
 }
 func (f yieldFile) Seek(off int64, whence int) (int64, error) {
-	runtime.Gosched()
+	runBetween(f.between)
 	return f.File.Seek(off, whence)
 }
-func (f yieldFile) Stat() (os.FileInfo, error) { runtime.Gosched(); return f.File.Stat() }
-func (f yieldFile) Close() error               { runtime.Gosched(); return f.File.Close() }
+func (f yieldFile) Stat() (os.FileInfo, error) { runBetween(f.between); return f.File.Stat() }
+func (f yieldFile) Close() error               { runBetween(f.between); return f.File.Close() }
